@@ -122,6 +122,8 @@ class C03(InputProp):
         # fan-out through every function: A = {{f<sep>...{{A}}...}} twice, page {{A}} - the recursion limit must bound the work whichever
         # function (and whichever argument position, colon or pipe form) the recursive calls are routed through
         fams.append(Product(names, ["colon", "pipe"], [0, 1, 2], name="fanout"))
+        # acyclic universes that multiply: t_i includes t_(i+1) f times, n levels deep (f^n inclusions from n short templates)
+        fams.append(Product([2, 3], [4, 8, 12, 16, 20, 30, 45] if tier != "quick" else [4, 12, 20, 45], ["plain", "via-arg", "via-if"], name="multiply"))
         # nesting depth: every opener of the template language nested n times (closed and left open)
         fams.append(Product(NEST_OPENERS, NEST_DEPTHS if tier != "quick" else NEST_DEPTHS[:4], ["closed", "open"], name="nest"))
         # operator chains of #expr / #ifexpr over operands chosen to grow (a chain is what multiplies, one operand never does)
@@ -164,6 +166,13 @@ class C03(InputProp):
             args = ["x"] * pos + ["{{A}}"]
             body = self.call(name, args, form) * 2
             return "{{A}}b", self.db("en", {"A": body}), len(body)
+        if fam == "multiply":
+            f, n, how = c
+            call = {"plain": "{{t%d}}", "via-arg": "{{E|{{t%d}}}}", "via-if": "{{#if:x|{{t%d}}}}"}[how]
+            pages = {"t%d" % i: (call % (i + 1)) * f for i in range(n)}
+            pages["t%d" % n] = "x"
+            pages["E"] = "{{{1}}}"
+            return "{{t0}}", self.db("en", pages), sum(map(len, pages.values())) + 65536 * 8  # (the output may reach the inclusion limit)
         if fam == "nest":
             (o, cl), n, closed = c
             return o * n + "x" + (cl * n if closed == "closed" else ""), self.db("en"), 0
